@@ -244,15 +244,18 @@ func preprocess(workerID string, seed *models.Item) {
 	}
 
 	// If the item is a redirection or an asset, we need to seencheck it if needed
-	if config.Get().UseHQ {
-		err = hq.SeencheckItem(seed)
-		if err != nil {
-			logger.Warn("unable to seencheck seed", "seed_id", seed.GetShortID(), "err", err.Error(), "func", "preprocessor.preprocess")
-		}
-	} else {
-		err = seencheck.SeencheckItem(seed)
-		if err != nil {
-			logger.Warn("unable to seencheck seed", "seed_id", seed.GetShortID(), "err", err.Error(), "func", "preprocessor.preprocess")
+	// (with --disable-seencheck the local store is never opened)
+	if config.Get().UseSeencheck {
+		if config.Get().UseHQ {
+			err = hq.SeencheckItem(seed)
+			if err != nil {
+				logger.Warn("unable to seencheck seed", "seed_id", seed.GetShortID(), "err", err.Error(), "func", "preprocessor.preprocess")
+			}
+		} else {
+			err = seencheck.SeencheckItem(seed)
+			if err != nil {
+				logger.Warn("unable to seencheck seed", "seed_id", seed.GetShortID(), "err", err.Error(), "func", "preprocessor.preprocess")
+			}
 		}
 	}
 
